@@ -61,7 +61,9 @@ class Stub(Transform):
         self.keys, self.req, self.out, self.typ, self.tag = keys, set(req), set(out), typ, tag
 
     def _compute(self, inp):
-        return self.typ({self.keys[i]: _value_for(self.keys[i], self.typ) + self.tag for i in self.out}) if self.out else EmptyTensorDict()
+        if not self.out:
+            return self.typ({}) if self.typ is not EmptyTensorDict else EmptyTensorDict()  # a key-less dictionary may still be typed
+        return self.typ({self.keys[i]: _value_for(self.keys[i], self.typ) + self.tag for i in self.out})
 
     @property
     def required_keys(self):
@@ -126,7 +128,7 @@ def case_conjunction(sp):
     if n == 3:
         reqs.append(r0 if choice(2, "third_same_required") == 0 else other)
         outs.append([frozenset(), frozenset({2}), frozenset({0})][choice(3, "output_2")])
-    typs = [(TYPES[1 + choice(2, f"type_{i}")] if outs[i] else EmptyTensorDict) for i in range(n)]
+    typs = [(TYPES[1 + choice(2, f"type_{i}")] if outs[i] else [EmptyTensorDict, Gradients, Jacobians][choice(3, f"type_of_empty_{i}")]) for i in range(n)]
     ts = [Stub(keys, reqs[i], outs[i], typs[i], tag=i) for i in range(n)]
     def cex(model=None):
         return dict(kind="typed", which="conjunction", reqs=[sorted(r) for r in reqs], outs=[sorted(o) for o in outs], types=[t.__name__ for t in typs])
